@@ -324,7 +324,7 @@ def write_scripts(ctx, scripts, tag):
     return sp
 
 
-def run_scripts(ctx, exe, scripts, tag, what, replayed=True, wrapper=None):
+def run_scripts(ctx, exe, scripts, tag, what, replayed=True, wrapper=None, env_extra=None):
     sp = write_scripts(ctx, scripts, tag)
     tr = ctx.tmp(tag + ".ndjson")
     if os.path.exists(tr):
@@ -336,6 +336,8 @@ def run_scripts(ctx, exe, scripts, tag, what, replayed=True, wrapper=None):
     env = dict(RUN_ENV)
     if wrapper:                                      # valgrind: the first steps include the translation of the code; no rlimit for valgrind itself
         env.update({"VERIF_STEP_CPU_S": "30", "VERIF_NO_RLIMIT": "1"})
+    if env_extra:
+        env.update(env_extra)
     ok, n = vlib.record_and_validate(ctx, cmd, args, tr, "Dns", "Trace_Dns.tla", "Trace_Dns.cfg", what, tlc_env=TLC_ENV, timeout=1500, env=env)
     if ok and replayed:
         ctx.traces_ok -= n
@@ -433,6 +435,15 @@ def run(ctx):
     run_scripts(ctx, exe, [concretise(rnd, b, pools) for b in d4], "lookups4", "%d lookup scripts of depth 4" % len(d4))
     hist = [random_history(rnd, pools, rnd.randrange(8, 40)) for _ in range(2000 if q else 12000)]
     run_scripts(ctx, exe, hist, "histories", "%d random histories (1-3 servers, duplicates, nested calls)" % len(hist), replayed=False)
+
+    # 2a'. bystander: the same lookup scripts while an unrelated UdpSocket on a second event loop (own thread) receives a flood of
+    # datagrams - state shared between the UdpSocket objects of a process (a static receive buffer, say) would let foreign bytes into
+    # the DNS client's results.  ThreadSanitizer build: the sharing itself is reported (Fault), not only its rare visible effect.
+    tsan = vlib.build("c15_dns", SRC, ["c15_dns/driver.cpp"], flavour="tsan", defines=DEFS)
+    by = [concretise(rnd, b, pools) for b in (behs[::3] if q else behs)] + hist[:150 if q else 1500]
+    run_scripts(ctx, tsan, by, "bystander", "%d lookup scripts / histories next to a flooded bystander socket on a second loop thread (TSan)" % len(by),
+                replayed=False, env_extra={"VERIF_C15_BYSTANDER": "1", "VERIF_STEP_CPU_S": "60", "VERIF_NO_RLIMIT": "1"})
+    ctx.fault_observers.append("ThreadSanitizer build for the bystander stage (second loop thread with an unrelated, flooded UdpSocket)")
 
     # 2b. crowds: hundreds of lookups outstanding at once (id allocation: live ids distinct, every lookup completes once)
     crowds = [crowd_script(rnd, pools, 700, "shuffled"), crowd_script(rnd, pools, 1000, "reverse")]
